@@ -178,7 +178,7 @@ Definition client_send (c : client) (ce : cevents) : list cev :=
 
 Inductive estep :=
 | EBase (st : step)                                   (* start/stop/authorize/replication deliveries *)
-| ESFrame (tick : bool) (dt : N) (ops : list sop) (parts : list (N * partition)) (emit : list (sety * (N * bool * bool) * N * option N))
+| ESFrame (tick : bool) (dt : N) (cleanup : bool) (ops : list sop) (parts : list (N * partition)) (emit : list (sety * (N * bool * bool) * N * option N))
     (* emissions: type, mode as (slot, is_except, is_direct) with slot = 999 for broadcast / 998 for direct-to-server, seq, entity *)
 | ECFrame (slot : N) (ops : list cop) (emit : list cev)
 | EDeliverS2C (slot : N) (ty : sety) (w : which) (drop : bool)
@@ -261,11 +261,11 @@ Definition syse_step (e : syse) (st : estep) : res (syse * eout) :=
       | _ => e1
       end in
     Ok (e2, mkEOut o [] [] [] [])
-  | ESFrame tick dt ops parts emit =>
+  | ESFrame tick dt cleanup ops parts emit =>
     let running_before := sv_running (y_server (e_sys e)) in
     (* PreUpdate: client events reach server logic while the server runs *)
     let '(e0, from) := if running_before then server_receive e else (e, []) in
-    let* (y', o) := sys_step (e_sys e0) (StSFrame tick dt false ops parts) in
+    let* (y', o) := sys_step (e_sys e0) (StSFrame tick dt cleanup ops parts) in
     let ran := match o with OSFrame fo _ => fo_ran fo | _ => false end in
     let just_stopped := negb running_before && sv_last_running (y_server (e_sys e)) in
     (* Update: emissions, resolved against the connections that exist now *)
